@@ -363,4 +363,241 @@ theorem rw_list_none (sel : List Str → Bool → Bool) (keep : List Str → Boo
     simp only
     exact rw_list_none sel keep names cs st (fun c' hc' => h c' (by simp [hc']))
 
+
+mutual
+/-- like `rw_node_sup`, also for a directory that `KeepEmptyDirectory` keeps -/
+theorem rw_node_sup' (sel : List Str → Bool → Bool) (keep : List Str → Bool) (names : List Str) :
+    ∀ (n : Node) (st : Stats) (e : Entry),
+      ((∀ p, keep p = true) ∨ e.isDir = false ∨ keep e.path = true) →
+      e ∈ entries names [n] → Chain sel names.length e.path e.isDir →
+        e ∈ entries names (rwNode sel keep names n st).1.toList
+  | .file n sz, st, e => by
+    intro _ h hc
+    simp only [entries_file, entries_nil, List.mem_singleton] at h
+    subst h
+    unfold rwNode
+    rw [if_pos hc.1]
+    simp [entries_file, entries_nil]
+  | .other n, st, e => by
+    intro _ h hc
+    simp only [entries_other, entries_nil, List.mem_singleton] at h
+    subst h
+    unfold rwNode
+    rw [if_pos hc.1]
+    simp [entries_other, entries_nil]
+  | .dir n ch, st, e => by
+    intro hk h hc
+    simp only [entries_dir, entries_nil, List.append_nil, List.mem_cons] at h
+    unfold rwNode
+    have ih := rw_list_sup' sel keep (names ++ [n]) ch st e hk
+    rcases h with h | h
+    · subst h
+      rw [if_pos hc.1]
+      generalize rwList sel keep (names ++ [n]) ch st = r at ih
+      obtain ⟨res, st'⟩ := r
+      simp only
+      rcases hk with hk | hk | hk
+      · rw [hk]; simp [entries_dir, entries_nil]
+      · simp at hk
+      · simp only at hk
+        rw [hk]; simp [entries_dir, entries_nil]
+    · rcases entries_prefix (names ++ [n]) ch e h with ⟨m, rest, hr⟩
+      rw [hr] at hc
+      rcases (chain_below sel names n m rest e.isDir).mp hc with ⟨hs, hc'⟩
+      rw [← hr] at hc'
+      rw [if_pos hs]
+      have := ih h hc'
+      generalize rwList sel keep (names ++ [n]) ch st = r at this
+      obtain ⟨res, st'⟩ := r
+      simp only at this ⊢
+      have hne : res.isEmpty = false := by
+        cases res with
+        | nil => simp [entries_nil] at this
+        | cons a b => rfl
+      rw [hne]
+      simp only [Bool.false_and, Bool.false_eq_true, if_false, Option.toList_some, entries_dir, entries_nil,
+        List.append_nil, List.mem_cons]
+      exact Or.inr this
+theorem rw_list_sup' (sel : List Str → Bool → Bool) (keep : List Str → Bool) (names : List Str) :
+    ∀ (l : List Node) (st : Stats) (e : Entry),
+      ((∀ p, keep p = true) ∨ e.isDir = false ∨ keep e.path = true) →
+      e ∈ entries names l → Chain sel names.length e.path e.isDir →
+        e ∈ entries names (rwList sel keep names l st).1
+  | [], st, e => by simp [entries_nil]
+  | c :: cs, st, e => by
+    intro hk h hc
+    rw [entries_cons] at h
+    unfold rwList
+    have ih1 := rw_node_sup' sel keep names c st e hk
+    generalize rwNode sel keep names c st = r1 at ih1
+    obtain ⟨o, st1⟩ := r1
+    have ih2 := rw_list_sup' sel keep names cs st1 e hk
+    cases o with
+    | none =>
+      simp only at ih1 ⊢
+      rcases List.mem_append.mp h with h | h
+      · have := ih1 h hc
+        simp [entries_nil] at this
+      · exact ih2 h hc
+    | some c' =>
+      simp only [Option.toList_some] at ih1 ⊢
+      generalize rwList sel keep names cs st1 = r2 at ih2
+      obtain ⟨r, st2⟩ := r2
+      simp only at ih2 ⊢
+      rw [entries_cons names c' r]
+      rcases List.mem_append.mp h with h | h
+      · exact List.mem_append.mpr (Or.inl (ih1 h hc))
+      · exact List.mem_append.mpr (Or.inr (ih2 h hc))
+end
+
+/-- `e'` lies strictly below the directory `e` -/
+def Below (e e' : Entry) : Prop := e.path.length < e'.path.length ∧ e'.path.take e.path.length = e.path
+
+mutual
+/-- a directory is only kept for a reason: `KeepEmptyDirectory` says so, or something below it is kept -/
+theorem rw_node_dir_reason (sel : List Str → Bool → Bool) (keep : List Str → Bool) (names : List Str) :
+    ∀ (n : Node) (st : Stats) (e : Entry),
+      e ∈ entries names (rwNode sel keep names n st).1.toList → e.isDir = true →
+        keep e.path = true ∨ ∃ e' ∈ entries names (rwNode sel keep names n st).1.toList, Below e e'
+  | .file n sz, st, e => by
+    unfold rwNode
+    split
+    · simp only [Option.toList_some, entries_file, entries_nil, List.mem_singleton]
+      intro h hd; subst h; simp at hd
+    · simp [entries_nil]
+  | .other n, st, e => by
+    unfold rwNode
+    split
+    · simp only [Option.toList_some, entries_other, entries_nil, List.mem_singleton]
+      intro h hd; subst h; simp at hd
+    · simp [entries_nil]
+  | .dir n ch, st, e => by
+    unfold rwNode
+    split
+    · have ih := rw_list_dir_reason sel keep (names ++ [n]) ch st e
+      generalize rwList sel keep (names ++ [n]) ch st = r at ih
+      obtain ⟨res, st'⟩ := r
+      simp only at ih ⊢
+      split
+      · simp [entries_nil]
+      · rename_i hkeep
+        simp only [Option.toList_some, entries_dir, entries_nil, List.append_nil, List.mem_cons]
+        rintro (h | h) hd
+        · subst h
+          simp only
+          cases hk : keep (names ++ [n]) with
+          | true => exact Or.inl rfl
+          | false =>
+            right
+            cases res with
+            | nil => simp [hk] at hkeep
+            | cons c' r' =>
+              -- the first kept child is an entry strictly below
+              have : ∃ e', e' ∈ entries (names ++ [n]) (c' :: r') ∧ e'.path = names ++ [n] ++ [c'.name] := by
+                cases c' with
+                | file m sz =>
+                  exact ⟨⟨names ++ [n] ++ [m], false, true, sz⟩, by rw [entries_file]; exact List.mem_cons_self, rfl⟩
+                | other m =>
+                  exact ⟨⟨names ++ [n] ++ [m], false, false, 0⟩, by rw [entries_other]; exact List.mem_cons_self, rfl⟩
+                | dir m ch' =>
+                  exact ⟨⟨names ++ [n] ++ [m], true, false, 0⟩, by rw [entries_dir]; exact List.mem_cons_self, rfl⟩
+              rcases this with ⟨e', he', hp⟩
+              refine ⟨e', Or.inr he', ?_, ?_⟩
+              · rw [hp]; simp
+              · rw [hp]
+                simp only [List.length_append, List.length_cons, List.length_nil]
+                rw [List.take_append_of_le_length (by simp)]
+                rw [List.take_of_length_le (by simp)]
+        · rcases ih h hd with h1 | ⟨e', he', hb⟩
+          · exact Or.inl h1
+          · exact Or.inr ⟨e', Or.inr he', hb⟩
+    · simp [entries_nil]
+theorem rw_list_dir_reason (sel : List Str → Bool → Bool) (keep : List Str → Bool) (names : List Str) :
+    ∀ (l : List Node) (st : Stats) (e : Entry),
+      e ∈ entries names (rwList sel keep names l st).1 → e.isDir = true →
+        keep e.path = true ∨ ∃ e' ∈ entries names (rwList sel keep names l st).1, Below e e'
+  | [], st, e => by simp [rwList, entries_nil]
+  | c :: cs, st, e => by
+    unfold rwList
+    have ih1 := rw_node_dir_reason sel keep names c st e
+    generalize rwNode sel keep names c st = r1 at ih1
+    obtain ⟨o, st1⟩ := r1
+    cases o with
+    | none =>
+      simp only
+      exact rw_list_dir_reason sel keep names cs st1 e
+    | some c' =>
+      simp only [Option.toList_some] at ih1 ⊢
+      have ih2 := rw_list_dir_reason sel keep names cs st1 e
+      generalize rwList sel keep names cs st1 = r2 at ih2
+      obtain ⟨r, st2⟩ := r2
+      simp only at ih2 ⊢
+      rw [entries_cons names c' r]
+      intro h hd
+      rcases List.mem_append.mp h with h | h
+      · rcases ih1 h hd with h1 | ⟨e', he', hb⟩
+        · exact Or.inl h1
+        · exact Or.inr ⟨e', List.mem_append.mpr (Or.inl he'), hb⟩
+      · rcases ih2 h hd with h1 | ⟨e', he', hb⟩
+        · exact Or.inl h1
+        · exact Or.inr ⟨e', List.mem_append.mpr (Or.inr he'), hb⟩
+end
+
+
+
+/-- every directory above an entry of a tree is itself an entry of the tree -/
+theorem entries_ancestor (names : List Str) : ∀ (l : List Node) (e' : Entry), e' ∈ entries names l →
+    ∀ k, names.length < k → k < e'.path.length → (⟨e'.path.take k, true, false, 0⟩ : Entry) ∈ entries names l
+  | [], e', h => by simp [entries_nil] at h
+  | .file n sz :: r, e', h => by
+    intro k hk1 hk2
+    simp only [entries_file, List.mem_cons] at h ⊢
+    rcases h with h | h
+    · subst h; simp at hk2; omega
+    · exact Or.inr (entries_ancestor names r e' h k hk1 hk2)
+  | .other n :: r, e', h => by
+    intro k hk1 hk2
+    simp only [entries_other, List.mem_cons] at h ⊢
+    rcases h with h | h
+    · subst h; simp at hk2; omega
+    · exact Or.inr (entries_ancestor names r e' h k hk1 hk2)
+  | .dir n ch :: r, e', h => by
+    intro k hk1 hk2
+    simp only [entries_dir, List.mem_cons, List.mem_append] at h ⊢
+    rcases h with h | h | h
+    · subst h; simp at hk2; omega
+    · rcases entries_prefix (names ++ [n]) ch e' h with ⟨m, rest, hr⟩
+      by_cases hk : k = names.length + 1
+      · left
+        subst hk
+        rw [hr, List.take_append_of_le_length (by simp), List.take_of_length_le (by simp)]
+      · right; left
+        exact entries_ancestor (names ++ [n]) ch e' h k (by simp; omega) hk2
+    · exact Or.inr (Or.inr (entries_ancestor names r e' h k hk1 hk2))
+
+/-- a directory entry carries no size and is not a file -/
+theorem entries_dir_shape (names : List Str) : ∀ (l : List Node) (e : Entry), e ∈ entries names l →
+    e.isDir = true → e = ⟨e.path, true, false, 0⟩
+  | [], e, h => by simp [entries_nil] at h
+  | .file n sz :: r, e, h => by
+    intro hd
+    simp only [entries_file, List.mem_cons] at h
+    rcases h with h | h
+    · subst h; simp at hd
+    · exact entries_dir_shape names r e h hd
+  | .other n :: r, e, h => by
+    intro hd
+    simp only [entries_other, List.mem_cons] at h
+    rcases h with h | h
+    · subst h; simp at hd
+    · exact entries_dir_shape names r e h hd
+  | .dir n ch :: r, e, h => by
+    intro hd
+    simp only [entries_dir, List.mem_cons, List.mem_append] at h
+    rcases h with h | h | h
+    · subst h; rfl
+    · exact entries_dir_shape (names ++ [n]) ch e h hd
+    · exact entries_dir_shape names r e h hd
+
+
 end Restic.Proofs.C27
